@@ -95,6 +95,11 @@ def load_corpus():
 def make_stream(name, seed, tier):
     q, t = SIZES.get(name, (0, 0))
     n = q if tier == "quick" else t
+    if tier == "escalate":
+        # broken proof or correspondence: a wider but still bounded search for a failing input
+        n = min(t, 6 * q)
+        seed = seed + 1000003
+        tier = "thorough" if name.startswith("exh") else "quick"
     if name == "corpus":
         return load_corpus()
     if name == "contract":
@@ -603,7 +608,7 @@ def main():
         esc = []
         if tier == "quick":
             try:
-                esc = run_streams("thorough")
+                esc = run_streams("escalate")
             except Exception as ex:  # noqa
                 esc = []
             res2 = judge(pid, cfg, esc)
